@@ -1,7 +1,7 @@
 """C17 - reader output does not depend on stream chunking or header alignment."""
 import ast
 
-from sa.model import AnalysisError, norm, walk_no_nested
+from sa.model import AnalysisError, FunctionInfo, norm, walk_no_nested
 from sa.roles import ReaderRoles, stream_ops
 from sa.interp import Interp, Frame
 from sa.values import AList, AObj, AStream, Unk, concrete, is_concrete
@@ -306,15 +306,42 @@ def _run(P, rep, tier, prefix):
     r5 = rep.rule(prefix + '-R5', 'the block-size parameter is used only as the argument of read()', reference=1)
     if len(params) > 2:
         bs = params[2]
+        def bad_uses(fn, pname, depth=0):
+            """Uses of parameter pname in fn other than as the size of a read; handing it to a module-level helper of the
+            package is followed into that helper (one forwarding method, one level)."""
+            uses_ = [n for n in walk_no_nested(fn.node) if isinstance(n, ast.Name) and n.id == pname and isinstance(n.ctx, ast.Load)]
+            bad_ = []
+            for u in uses_:
+                ok = False
+                for n in walk_no_nested(fn.node):
+                    if isinstance(n, ast.Call) and isinstance(n.func, ast.Attribute) and n.func.attr in ('read', 'readline', 'read1') and u in n.args:
+                        ok = True
+                    if isinstance(n, ast.Call) and depth < 2 and (u in n.args or any(kw.value is u for kw in n.keywords)):
+                        try:
+                            g = P.resolve_call(fn, n, self_cls=fn.cls)
+                        except Exception:
+                            g = None
+                        g = g[0] if isinstance(g, list) and len(g) == 1 else g
+                        if isinstance(g, FunctionInfo) and g.cls is None:
+                            gp = g.params()
+                            tgt = None
+                            if u in n.args and n.args.index(u) < len(gp):
+                                tgt = gp[n.args.index(u)]
+                            for kw in n.keywords:
+                                if kw.value is u and kw.arg in gp:
+                                    tgt = kw.arg
+                            if tgt is not None:
+                                sub = bad_uses(g, tgt, depth + 1)
+                                if not sub:
+                                    ok = True
+                                else:
+                                    bad_.extend(sub)
+                                    ok = True
+                if not ok:
+                    bad_.append(u)
+            return bad_
         uses = [n for n in walk_no_nested(ra.node) if isinstance(n, ast.Name) and n.id == bs and isinstance(n.ctx, ast.Load)]
-        bad = []
-        for u in uses:
-            ok = False
-            for n in walk_no_nested(ra.node):
-                if isinstance(n, ast.Call) and isinstance(n.func, ast.Attribute) and n.func.attr in ('read', 'readline', 'read1') and u in n.args:
-                    ok = True
-            if not ok:
-                bad.append(u)
+        bad = bad_uses(ra, bs)
         if bad:
             rep.violation(r5, 'block-size-use', ra.loc(bad[0]), 'the block size %r is used for something other than the size of '
                           'read() (line %d): the result can depend on the block size' % (bs, bad[0].lineno), path=[ra.short])
